@@ -31,9 +31,9 @@ RULE = (
     "the directory pacing condition (plus every such burst of <= 2 operations ending in the deletion of the watched "
     "root): render the operations into the native notification sequence (W: variants parent-MODIFIED off/on x "
     "cross-directory rename as OLD+NEW / REMOVED+ADDED, recursive and non-recursive watch; parent-MODIFIED on only for "
-    "bursts <= 2; M: coalesced item placed at its last / first change, recursive and non-recursive watch, "
+    "bursts <= 2; M: coalesced item placed at its last / first change, flags of earlier batches repeated or not, recursive and non-recursive watch, "
     "suppress_history off/on), enumerate EVERY cut of that sequence into batches (all 2^(n-1) "
-    "cuts for n <= cap records, else all cuts with <= 3 cut points - reported) x two delivery modes (all batches after "
+    "cuts for n <= 10 records, else all cuts with <= 3 cut points - reported per part) x two delivery modes (all batches after "
     "the last operation / each batch right after the operation that produced its last record; identical schedules are "
     "run once); one execution = fresh scratch tree + fresh real emitter + the schedule; oracles: C01 replay equality, "
     "per-batch translation contract (rename halves in one batch = one moved event with both paths + synthetic moved "
@@ -67,7 +67,8 @@ ASSUMPTIONS = [
     "items with the same inode (old path, new path; nothing for a replaced target, nothing for descendants); move out / "
     "move in -> one ItemRenamed item; root deleted -> RootChanged item for the root (inode None); ItemIsFile/ItemIsDir "
     "always set; coalescing never crosses a batch boundary (the 'sticky flags of earlier batches' behaviour the "
-    "emitter's comments mention is not simulated); inodes are the real tmpfs inode numbers (never reused within an "
+    "emitter's comments mention is a separate variant: ItemCreated/ItemModified/ItemInodeMetaMod flags that an item "
+    "carried in an earlier batch are repeated in its later items); inodes are the real tmpfs inode numbers (never reused within an "
     "execution)",
     "M: where a coalesced item stands inside its batch is not documented; FSEvents.h says the event ID of an item 'comes "
     "from the most recent event being reported', so the primary reading places the item at its LAST change; the "
@@ -80,8 +81,9 @@ ASSUMPTIONS = [
     "for a non-recursive watch both sides are restricted to the root's direct children",
     "flavour/descendant expectations of the per-batch contract are only demanded when the object the record is about "
     "is still at that path when the batch is processed (both emitters stat the path at processing time)",
-    "part D pads between records with non-zero bytes (padding content is unspecified) and appends garbage after "
-    "n_bytes; names are arbitrary UTF-16 code unit sequences as NTFS allows",
+    "part D: extra padding between records (0..3 DWORDs beyond the DWORD alignment) and 16 bytes after n_bytes are zero "
+    "filled (a decoder that reads them as a header then produces a visible bogus record instead of a wild memory read); "
+    "names are arbitrary UTF-16 code unit sequences as NTFS allows",
 ]
 
 ADDED, REMOVED, MODIFIED, OLD, NEW = 1, 2, 3, 4, 5
@@ -90,6 +92,10 @@ ADDED, REMOVED, MODIFIED, OLD, NEW = 1, 2, 3, 4, 5
 # =================================================================================================
 # symbolic execution of a history: tree + identity of every entry after each operation
 # =================================================================================================
+class UnsupportedOp(Exception):
+    """An operation kind of the fsops alphabet this module has no renderer for (the history is skipped and counted)."""
+
+
 class Hist:
     __slots__ = ("tree0", "ops", "states", "effects", "root_gone", "dir_over_dir")
 
@@ -123,6 +129,12 @@ class Hist:
                     tree[p] = "d"
                     ids[p] = new()
                     eff.append(("create", p, "d", ids[p]))
+            elif k == "mktree":
+                # fsops: os.makedirs(d/d); create d/f; create d/d/f
+                for p, kk in (("d", "d"), ("d/d", "d"), ("d/f", "f"), ("d/d/f", "f")):
+                    tree[p] = kk
+                    ids[p] = new()
+                    eff.append(("create", p, kk, ids[p]))
             elif k in ("append", "truncate"):
                 eff.append(("modify", op[1], tree[op[1]], ids[op[1]]))
             elif k == "chmod":
@@ -171,7 +183,7 @@ class Hist:
                         tree[q] = kk
                         ids[q] = new()
             else:
-                raise ValueError(op)
+                raise UnsupportedOp(op)
             self.effects.append(eff)
             self.states.append((dict(tree), dict(ids)))
 
@@ -360,7 +372,26 @@ def exec_win(h, notifs, steps, recursive):
         _rm(base)
 
 
-def exec_mac(h, notifs, steps, recursive, suppress_history=False, place="last"):
+STICKY = macsim.F_CREATED | macsim.F_MODIFIED | macsim.F_INODE_META_MOD
+
+
+def needs_sticky(notifs, steps):
+    """Does some item recur in a later batch after it carried a created/modified/meta flag?"""
+    seen = set()
+    for st in steps:
+        if st[0] != "batch":
+            continue
+        keys = {}
+        for j in range(st[1], st[2]):
+            p, ident, flags = notifs[j][1]
+            keys[(p, ident)] = keys.get((p, ident), 0) | flags
+        if any(k in seen for k in keys):
+            return True
+        seen |= {k for k, f in keys.items() if f & STICKY}
+    return False
+
+
+def exec_mac(h, notifs, steps, recursive, suppress_history=False, place="last", sticky=False):
     api = wd.mod("watchdog.observers.api")
     fse = macsim.fsevents()
     base, R, O = _scratch()
@@ -383,6 +414,7 @@ def exec_mac(h, notifs, steps, recursive, suppress_history=False, place="last"):
         deliveries = []
         done = 0
         eid = 100
+        sticky_flags = {}
         error = None
         for st in steps:
             if error:
@@ -396,6 +428,10 @@ def exec_mac(h, notifs, steps, recursive, suppress_history=False, place="last"):
                 items = macsim.coalesce([notifs[j][1] for j in range(st[1], st[2])], place)
                 natives = []
                 for p, ident, flags in items:
+                    if sticky:
+                        # flags already reported for this item in an earlier batch show up again
+                        flags |= sticky_flags.get((p, ident), 0)
+                    sticky_flags[(p, ident)] = sticky_flags.get((p, ident), 0) | (flags & STICKY)
                     eid += 1
                     natives.append(macsim.NativeEvent(R if p is None else R + "/" + p,
                                                       None if ident is None else bound[ident], flags, eid))
@@ -630,7 +666,7 @@ def mac_contract(h, notifs, res, recursive, place="last"):
                     out.append((f"table: rename with both halves in one batch -> {min(len(gs), 2)} moved events with both paths",
                                 f"{where}: expected exactly one moved event {old!r} -> {new!r}; events: {shown}", cd))
                     continue
-                if gs[0][4] != (kind == "d"):
+                if not any(g[4] == (kind == "d") for g in gs):
                     out.append(("table: moved event with the wrong File/Dir flavour", f"{where}: {gs[0][1:6]}", False))
                 if recursive and ids.get(new) == ident and len(ren) == 1:
                     want = {("Moved", old + q[len(new):], q, k == "d") for q, k in _desc(tree, new).items()}
@@ -653,7 +689,7 @@ def mac_contract(h, notifs, res, recursive, place="last"):
                         out.append(("table: move in -> no created event",
                                     f"{where}: expected one created event for {p!r}; events: {shown}", cd))
                         continue
-                    if gs[0][4] != (kind == "d"):
+                    if not any(g[4] == (kind == "d") for g in gs):
                         out.append(("table: created event with the wrong File/Dir flavour", f"{where}: {gs[0][1:6]}", False))
                     if recursive and len(ren) == 1:
                         want = {("Created", q, None, k == "d") for q, k in _desc(tree, p).items()}
@@ -675,9 +711,13 @@ def mac_contract(h, notifs, res, recursive, place="last"):
                 out.append((f"table: {item} -> no {want.lower()} event of the item's flavour",
                             f"{where}: expected a {want} event for {p!r} ({'dir' if kind == 'd' else 'file'}); events: {shown}",
                             not recursive and kind == "d"))
-        # soundness: every moved event pairs two rename items of one inode; every path is justified
+        # soundness: every moved event pairs two rename items of one inode; every path is justified; a created event
+        # needs an item that was created or renamed in THIS batch (spurious repeated ItemCreated flags are suppressed)
         for e in ns:
             k = _kindname(e[1])
+            if k == "Created" and not any(c[1][0] == e[2] and c[1][2] & (F.F_CREATED | F.F_RENAMED) for c in changes):
+                out.append(("table: created event for an item that was neither created nor renamed in this batch",
+                            f"{where}: {e[1:6]}", False))
             if k == "Moved":
                 if not any(e[2] != e[3] and e[2] in [p for p, _ in lst] and e[3] in [p for p, _ in lst] for lst in ren.values()):
                     out.append(("table: moved event that pairs no two rename items of one inode", f"{where}: {e[1:6]}", False))
@@ -712,8 +752,23 @@ def _items_str(changes, place="last"):
 # =================================================================================================
 SPLIT_FP = ("win: rename halves split across batches lose the source path (RENAMED_OLD_NAME last in one buffer, "
             "RENAMED_NEW_NAME first in the next; last_renamed_src_path is local to one queue_events call)")
-LATE_FP = ("win: File/Dir flavour of a created entry is taken from a late os.path.isdir (the directory was already renamed "
-           "away when its ADDED record is processed) -> file-created + dir-moved, replay has the wrong kind")
+LATE_FP = ("win: File/Dir flavour and descendants of an ADDED / renamed entry are taken from os.path.isdir / os.walk at "
+           "processing time, after later operations already renamed or replaced that path (e.g. mkdir d; rename d e in one "
+           "buffer -> FileCreatedEvent(d) + DirMovedEvent(d, e)) -> replay has the wrong kind / stale descendants")
+
+
+def _prompt_schedule(notifs, nops):
+    """Every operation followed at once by one batch with exactly its own records."""
+    steps = []
+    j = 0
+    for i in range(nops):
+        steps.append(("op", i))
+        lo = j
+        while j < len(notifs) and notifs[j][0] == i:
+            j += 1
+        if j > lo:
+            steps.append(("batch", lo, j))
+    return tuple(steps)
 
 
 def _merge_splits(notifs, steps):
@@ -743,7 +798,11 @@ def classify_win(h, notifs, steps, res, detail, recursive):
             return SPLIT_FP
         detail = bad[0][2]
     if detail["wrong"] and not detail["missing"] and not detail["extra"]:
-        return LATE_FP
+        return LATE_FP         # only the kind differs (cheap rule; the general case is decided by the run below)
+    if tuple(merged) != _prompt_schedule(notifs, len(h.ops)):
+        r3 = exec_win(h, notifs, _prompt_schedule(notifs, len(h.ops)), recursive)
+        if not [c for c in common_checks(h, r3, recursive, "win") if c[0] in ("replay-mismatch", "unreplayable", "exception")]:
+            return LATE_FP     # the same records processed right after their operation replay correctly
     return (f"win: replay-mismatch unclassified [{'recursive' if recursive else 'non-recursive'}; missing={bool(detail['missing'])} "
             f"stale={bool(detail['extra'])} wrong-kind={bool(detail['wrong'])}]")
 
@@ -792,6 +851,7 @@ class Acc:
         self.executions = 0
         self.nontrivial = 0
         self.skipped = 0
+        self.unsupported = 0
         self.capped = 0
         self.maxrec = 0
         self.records = 0
@@ -806,7 +866,7 @@ class Acc:
             self.bad[fp] = (size, msg, case)
 
     def merge(self, o):
-        for k in ("histories", "sequences", "executions", "nontrivial", "skipped", "capped", "records", "failing"):
+        for k in ("histories", "sequences", "executions", "nontrivial", "skipped", "unsupported", "capped", "records", "failing"):
             setattr(self, k, getattr(self, k) + getattr(o, k))
         self.maxrec = max(self.maxrec, o.maxrec)
         self.streams |= o.streams
@@ -832,7 +892,11 @@ def win_variants(h, recursive, pm_max_len=99):
 
 
 def run_history(acc, layer, cfg, tree0, ops, cap_n):
-    h = Hist(tree0, ops)
+    try:
+        h = Hist(tree0, ops)
+    except UnsupportedOp:
+        acc.unsupported += 1
+        return
     recursive = cfg["recursive"]
     if layer == "win":
         if h.dir_over_dir:
@@ -841,19 +905,22 @@ def run_history(acc, layer, cfg, tree0, ops, cap_n):
         variants = win_variants(h, recursive, cfg.get("parent_mod_max_burst", 99))
     else:
         mn = mac_notifs(h)
-        variants = [(dict(place="last"), mn), (dict(place="first"), mn)]
+        variants = [(dict(place="last"), mn), (dict(place="first"), mn), (dict(place="last", sticky=True), mn)]
     acc.histories += 1
     for variant, notifs in variants:
         first_place = variant.get("place") == "first"
-        if not first_place:
+        sticky = variant.get("sticky", False)
+        if not first_place and not sticky:
             acc.sequences += 1
             acc.records += len(notifs)
             acc.maxrec = max(acc.maxrec, len(notifs))
         scheds, capped = schedules(notifs, len(h.ops), cap_n)
-        acc.capped += capped and not first_place
+        acc.capped += capped and not first_place and not sticky
         for mode, cut, steps in scheds:
             if first_place and all(st[0] == "op" or _same_placement(notifs, st[1], st[2]) for st in steps):
                 continue     # no batch of this schedule depends on where a coalesced item is placed
+            if sticky and not needs_sticky(notifs, steps):
+                continue     # no item recurs in a later batch
             probs, res = run_schedule(layer, cfg, h, notifs, steps, variant)
             acc.executions += 1
             if res["events"]:
@@ -870,7 +937,7 @@ def run_history(acc, layer, cfg, tree0, ops, cap_n):
             for fp, msg in probs:
                 size = (len(h.ops), len(h.tree0), len(notifs), len(cut), mode != "end",
                         variant.get("parent_mod", False), variant.get("xdir") == "split", cfg.get("suppress_history", False),
-                        first_place, h.name(), repr(steps))
+                        first_place, sticky, h.name(), repr(steps))
                 old = acc.bad.get(fp)
                 if old is not None and old[0] <= size:
                     continue
@@ -902,12 +969,12 @@ def _batches_str(layer, notifs, steps, place="last"):
     return " ".join(out)
 
 
-def _execute(layer, cfg, h, notifs, steps, place):
+def _execute(layer, cfg, h, notifs, steps, place, sticky=False):
     for attempt in range(3):
         try:
             if layer == "win":
                 return exec_win(h, notifs, steps, cfg["recursive"])
-            return exec_mac(h, notifs, steps, cfg["recursive"], cfg.get("suppress_history", False), place)
+            return exec_mac(h, notifs, steps, cfg["recursive"], cfg.get("suppress_history", False), place, sticky)
         except OSError:
             # the harness' own scratch operations failed (scratch directory removed from outside): run again
             if attempt == 2:
@@ -919,7 +986,8 @@ def run_schedule(layer, cfg, h, notifs, steps, variant=None, _counterfactual=Fal
     recursive = cfg["recursive"]
     sh = cfg.get("suppress_history", False)
     place = (variant or {}).get("place", "last")
-    res = _execute(layer, cfg, h, notifs, steps, place)
+    sticky = (variant or {}).get("sticky", False)
+    res = _execute(layer, cfg, h, notifs, steps, place, sticky)
     probs = []
     tag = f"{layer}{'' if recursive else ' non-recursive'}"
     checks = common_checks(h, res, recursive, layer)
@@ -932,6 +1000,11 @@ def run_schedule(layer, cfg, h, notifs, steps, variant=None, _counterfactual=Fal
         p2, _ = run_schedule(layer, cfg, h, notifs, steps, dict(variant, place="last"), _counterfactual=True)
         if not p2:
             return [(ORDER_FP, (checks[0][1] if checks else contract[0][1]))], res
+    if layer == "mac" and sticky and (checks or contract) and not _counterfactual:
+        p2, _ = run_schedule(layer, cfg, h, notifs, steps, dict(variant, sticky=False), _counterfactual=True)
+        if not p2:
+            first = checks[0][:2] if checks else contract[0][:2]
+            return [(f"mac [flags of an item reported in an earlier batch repeated in a later item]: {first[0]}", first[1])], res
     for clause, msg, detail in checks:
         if clause == "replay-mismatch":
             fp = (classify_win(h, notifs, steps, res, detail, recursive) if layer == "win"
@@ -956,7 +1029,6 @@ def run_schedule(layer, cfg, h, notifs, steps, variant=None, _counterfactual=Fal
 # =================================================================================================
 # parallel driver for the history parts
 # =================================================================================================
-_G = {}
 
 
 def histories_of(tree, n, root_delete=False):
@@ -982,7 +1054,7 @@ def _job(args):
     return acc
 
 
-def history_part(ctx, pool, layer, cfg, trees, n, *, root_delete=False, cap_n=8, label):
+def history_part(ctx, pool, layer, cfg, trees, n, *, root_delete=False, cap_n=10, label):
     jobs = []
     for t in trees:
         m = 1 if n <= 1 else (2 if n == 2 else 12)
@@ -1001,13 +1073,14 @@ def history_part(ctx, pool, layer, cfg, trees, n, *, root_delete=False, cap_n=8,
                                case=case, **({"infra": True} if infra else {})))
     ctx.add_enum(label, total.executions, total.nontrivial, samples=[total.sample[1]] if total.sample else [],
                  states=len(total.streams), transitions=total.records,
-                 exhaustive=total.capped == 0,
+                 exhaustive=total.capped == 0 and total.unsupported == 0,
                  extra=dict(layer=layer, configuration=cfg, initial_trees=len(trees), burst_len=n, histories=total.histories,
                             notification_sequences=total.sequences, notification_records=total.records,
                             max_records_per_sequence=total.maxrec, executions=total.executions,
                             distinct_event_streams=len(total.streams),
                             sequences_with_capped_cuts=total.capped, cut_cap=f"all cuts up to {cap_n} records, beyond: <= 3 cut points",
-                            histories_skipped_dir_over_dir=total.skipped, failing_executions=total.failing))
+                            histories_skipped_dir_over_dir=total.skipped, histories_skipped_unsupported_operation=total.unsupported,
+                            failing_executions=total.failing))
     return total
 
 
@@ -1057,7 +1130,7 @@ def _win_decode_job(args):
         if nrec > 1 or recs[0][1]:
             nontrivial += 1
         try:
-            got = parse(buf + b"\xAA" * 8, n)
+            got = parse(buf + bytes(16), n)
         except Exception as e:  # noqa: BLE001
             got = f"{type(e).__name__}: {e}"
         if got != recs:
@@ -1245,7 +1318,7 @@ def replay(rec):
         elif layer == "win-decoder":
             recs = [(a, "".join(chr(int(c, 16)) for c in nm)) for a, nm in case["records"]]
             buf, n = winsim.encode(recs, case["extra_padding_dwords"])
-            got = winsim.winapi()._parse_event_buffer(buf + b"\xAA" * 8, n)
+            got = winsim.winapi()._parse_event_buffer(buf + bytes(16), n)
             print("encoded records:", [(a, [hex(ord(c)) for c in nm]) for a, nm in recs], "padding", case["extra_padding_dwords"])
             print("decoded records:", [(a, [hex(ord(c)) for c in nm]) for a, nm in got])
             bad = got != recs
